@@ -1,4 +1,4 @@
-\* (D) algebra: all 11 907 reactions with 1-2 species per side x coefficients {1/4,1,2} x TS none/1/2,
+\* (D) algebra: all 13 068 reactions with 1-2 species per side x coefficients {1/4,1,(3/2),2} x TS none/1/2,
 \* three caller dictionaries, every public call once
 SPECIFICATION Spec
 CONSTANTS
